@@ -681,6 +681,11 @@ class Function(object):
         # Verify point is a Point
         assert isinstance(point, Point)
 
+        # Remove the leaf functions that are not really involved in the decomposition of self (null weights):
+        # they must not prevent from combining the known gradients and function values of the other ones.
+        if not self._is_leaf:
+            self.decomposition_dict = prune_dict(self.decomposition_dict)
+
         # If those values already exist, simply return them.
         # If not, instantiate them before returning.
         # Note if the non-differentiable case, the gradient is recomputed anyway.
